@@ -10,6 +10,7 @@ pub mod loopmon;
 pub mod scripts;
 pub mod srcmon;
 pub mod winmon_count;
+pub mod winmon_time;
 
 pub fn dispatch(args: &Args, report: &mut Report) {
     match args.prop.as_str() {
@@ -29,6 +30,8 @@ pub fn dispatch(args: &Args, report: &mut Report) {
         "C10" => loopmon::run_c10(args, report),
         "C11" => loopmon::run_c11(args, report),
         "C12" => winmon_count::run(args, report),
+        "C13" => winmon_time::run_c13(args, report),
+        "C14" => winmon_time::run_c14(args, report),
         "C15" => srcmon::run(args, report),
         "C19" => graphdump::run(args, report),
         other => {
